@@ -89,6 +89,8 @@ void h_span_ctor(void) { VF_INPUT(unsigned char, n); VF_BUF(int, p, n, 6); VF_IN
   { int *d = 0; unsigned long m = 9; VF_ASSERT(ctad_array(&d, &m, &arr) == 4 && m == 4 && d == arr._buf, "span(array<int,4>&) deduces extent 4"); }
   VF_ASSERT(a4_data(&arr) == arr._buf && a4_begin(&arr) == arr._buf && a4_end(&arr) == arr._buf + 4 && a4_front(&arr) == arr._buf && a4_back(&arr) == arr._buf + 3 && a4_size(&arr) == 4 && !a4_empty(&arr), "array<int,4>: data/begin/end/front/back/size/empty");
   VF_ASSERT(a0_begin(&arr0) == a0_end(&arr0) && a0_size(&arr0) == 0 && a0_empty(&arr0), "array<int,0>: begin() == end(), size 0, empty");
+  VF_ASSERT(a4_cdata(&arr) == arr._buf && a4_cfront(&arr) == arr._buf && a4_cback(&arr) == arr._buf + 3 && a4_begin_c(&arr) == arr._buf && a4_end_c(&arr) == arr._buf + 4 && a4_cbegin(&arr) == arr._buf && a4_cend(&arr) == arr._buf + 4 && a4_max_size(&arr) == 4, "array<int,4>: const data/front/back/begin/end, cbegin/cend, max_size");
+  VF_ASSERT(a4_rbegin_base(&arr) == arr._buf + 4 && a4_rend_base(&arr) == arr._buf && a4_crbegin_base(&arr) == arr._buf + 4 && a4_crend_base(&arr) == arr._buf && a4_rbegin_c_base(&arr) == arr._buf + 4 && a4_rend_c_base(&arr) == arr._buf, "array<int,4>: rbegin/rend/crbegin/crend base() == end() / begin()");
   VF_REACH(); }
 
 /* ---- C05: span ---------------------------------------------------------------------------------------------------- */
@@ -653,3 +655,13 @@ void h_viol_array_index(void) { VF_INPUT(A4, a); VF_INPUT(unsigned long, i); VF_
 /*@GROUP name=array_index props=C19,C02,C05 kind=F when=VF_PART==0@*/
 void h_array_index(void) { VF_INPUT(A4, a); VF_INPUT(unsigned char, i); __CPROVER_assume(i < 4);
   VF_ASSERT(a4_index(&a, i) == a._buf + i && a4_cindex(&a, i) == a._buf + i, "array<int,4>: operator[](i) addresses element i (no handler for a valid index, also under SAFE)"); VF_REACH(); }
+
+/* ---- array<int,4> value operations: fill, swap, equality and lexicographic order over fully symbolic contents */
+/*@GROUP name=array_values props=C19,C02 kind=K unwind=6 when=VF_PART==0@*/
+void h_array_values(void) { VF_INPUT(A4, a); VF_INPUT(A4, b); VF_INPUT(int, v); VF_INPUT(unsigned char, g); __CPROVER_assume(g < 4); A4 a0 = a, b0 = b;
+  _Bool eq = 1, lt = 0, decided = 0; for (int i = 0; i < 4; ++i) { if (a._buf[i] != b._buf[i]) eq = 0; if (!decided && a._buf[i] != b._buf[i]) { lt = a._buf[i] < b._buf[i]; decided = 1; } }
+  VF_ASSERT(a4_eq(&a, &b) == eq, "array == compares every element");
+  VF_ASSERT(a4_lt(&a, &b) == lt, "array < is the lexicographic order (first differing element decides)");
+  a4_swap(&a, &b); VF_ASSERT(a._buf[g] == b0._buf[g] && b._buf[g] == a0._buf[g], "array::swap exchanges every element");
+  a4_fill(&a, &v); VF_ASSERT(a._buf[g] == v && b._buf[g] == a0._buf[g], "array::fill assigns the value to every element and touches nothing else");
+  VF_REACH(); }
